@@ -45,7 +45,7 @@ type readRec struct {
 }
 
 // concRun runs the lanes (one goroutine each) against nReaders reader goroutines and returns the reads.
-func concRun(w *world, lanes []*lane, nReaders int, mkProbe func(rng *rand.Rand) *probe, seed int64, maxReads int) [][]readRec {
+func concRun(w *world, lanes []*lane, nReaders int, mkProbe func(rng *rand.Rand) *probe, seed int64, maxReads int, pace bool) [][]readRec {
 	w.conc = true
 	defer func() { w.conc = false }()
 	var done int32
@@ -78,7 +78,7 @@ func concRun(w *world, lanes []*lane, nReaders int, mkProbe func(rng *rand.Rand)
 			for _, o := range l.ops {
 				// let the readers get some reads in between two writes (pacing only, no verdict depends on it)
 				before := atomic.LoadInt64(&reads)
-				for y := 0; y < 200 && atomic.LoadInt64(&reads) < before+int64(nReaders); y++ {
+				for y := 0; pace && y < 200 && atomic.LoadInt64(&reads) < before+int64(nReaders); y++ {
 					runtime.Gosched()
 				}
 				o.Call = hist.Tick()
@@ -383,7 +383,7 @@ func concRound(r *ev.Run, seed int64, prof profile) bool {
 		}
 	}
 	mk := func(rr *rand.Rand) *probe { return p.readerProbe(rr, prof.MaxID) }
-	reads := concRun(w, []*lane{wl}, nReaders, mk, seed, r.Pick(1200, 3000))
+	reads := concRun(w, []*lane{wl}, nReaders, mk, seed, r.Pick(1200, 3000), true)
 	if rejected > 0 {
 		r.Inconclusive("concurrent round %d: %d puts with a fresh epoch were rejected as stale (harness expectation broken)", seed, rejected)
 		return false
@@ -397,6 +397,71 @@ func concRound(r *ev.Run, seed int64, prof profile) bool {
 	}
 	w.count("conc_write_ops", int64(len(wl.ops)))
 	r.Count("conc_rounds_one_writer", 1)
+
+	// ---- family 1b: a free-running stream of leader transfers / size changes / re-insertions on few
+	// regions || readers that only use the getters which combine several index reads (they must be
+	// one lock section: a write landing between two partial reads gives a value no state explains) ----
+	if len(w.m.es) > 0 && len(w.m.es) <= 60 {
+		scratch = w.m.snapshot()
+		states = []*model{scratch.snapshot()}
+		hl := &lane{}
+		for len(hl.ops) < r.Pick(500, 1500) {
+			e := scratch.es[rng.Intn(len(scratch.es))]
+			sp := e.spec.clone()
+			sp.Via, sp.CloneFrom = "", 0
+			g.randLeader(sp, true)
+			sp.Size = g.randSize()
+			if rng.Intn(4) == 0 {
+				g.randPending(sp)
+			}
+			normalise(sp)
+			g.epoch++
+			sp.Ver, sp.ConfVer = g.epoch, g.epoch
+			info := sp.build(nil)
+			gone := rng.Intn(5) == 0 // sometimes the region is dropped first: counts change as well
+			if gone {
+				id := sp.ID
+				scratch.remove(id)
+				hl.ops = append(hl.ops, &laneOp{Desc: fmt.Sprintf("remove r%d", id), do: func() {
+					if cur := w.bc.GetRegion(id); cur != nil {
+						w.bc.RemoveRegion(cur)
+					}
+				}})
+				states = append(states, scratch.snapshot())
+			}
+			scratch.set(&entry{spec: sp, info: info})
+			hl.ops = append(hl.ops, &laneOp{Desc: "put " + sp.String(), do: func() { w.bc.PutRegion(info) }})
+			states = append(states, scratch.snapshot())
+		}
+		mkc := func(rr *rand.Rand) *probe {
+			st := uint64(1 + rr.Intn(prof.Stores))
+			switch rr.Intn(8) {
+			case 0, 1:
+				return &probe{Kind: "store", Store: st, Sub: 5} // GetStoreRegionCount
+			case 2, 3:
+				return &probe{Kind: "store", Store: st, Sub: 10} // GetStoreRegionSize
+			case 4:
+				return &probe{Kind: "avg"}
+			case 5:
+				return &probe{Kind: "storeset", Store: st}
+			case 6:
+				return &probe{Kind: "rand", Role: roles[rr.Intn(4)], Store: st, Draws: 1, Sub: 3}
+			}
+			return &probe{Kind: "allregions"}
+		}
+		reads = concRun(w, []*lane{hl}, nReaders, mkc, seed+2, r.Pick(2500, 6000), false)
+		if !judgeReads(r, w, "free-running-writer-composite-readers", seed, prof, []*lane{hl}, reads, func(idx []int) *model { return states[idx[0]] }) {
+			return false
+		}
+		last := states[len(states)-1].snapshot()
+		last.sinfo = w.m.sinfo // no store record was refreshed in this family
+		w.m = last
+		if !quiescent(r, w, p, "free-running-writer-composite-readers", seed, prof, []*lane{hl}) {
+			return false
+		}
+		w.count("conc_write_ops", int64(len(hl.ops)))
+		r.Count("conc_rounds_free_running_writer", 1)
+	}
 
 	// ---- family 2: two concurrent streams of cache drops || readers ----
 	base := w.m.snapshot()
@@ -441,7 +506,7 @@ func concRound(r *ev.Run, seed int64, prof profile) bool {
 		memo[k] = m
 		return m
 	}
-	reads = concRun(w, dl, nReaders, mk, seed+1, r.Pick(600, 1500))
+	reads = concRun(w, dl, nReaders, mk, seed+1, r.Pick(600, 1500), true)
 	if !judgeReads(r, w, "two-droppers-many-readers", seed, prof, dl, reads, stateAt) {
 		return false
 	}
@@ -457,7 +522,7 @@ func concRound(r *ev.Run, seed int64, prof profile) bool {
 func concPhase(r *ev.Run, rng *rand.Rand) bool {
 	rounds := r.Pick(16, 40)
 	for i := 0; i < rounds; i++ {
-		prof := profile{Name: "concurrent", Keys: 8 + rng.Intn(14), MaxID: 36, Ops: 40 + rng.Intn(40), Prefill: true,
+		prof := profile{Name: "concurrent", Keys: 14 + rng.Intn(18), MaxID: 60, Ops: 40 + rng.Intn(40), Prefill: true,
 			Stores: 3 + rng.Intn(6), Density: 0.7, NearEach: 1, FullEach: 1 << 30, CompleteEach: 1 << 30}
 		if i%8 == 7 {
 			// a larger world: several hundred regions, few stores
